@@ -158,6 +158,39 @@ class World:
         key = json.dumps(d, sort_keys=True)
         return self.param_ids.setdefault(key, len(self.param_ids))
 
+    # ------------------------------------------------------------------ calls that must FAIL (and leave the linker as it was)
+    FAILING = ("fm_fail", "c2_fail")
+
+    def fail(self, op: tuple):
+        """Runs a call built to raise.  Returns the exception text, or None when it did not raise.
+        fm_fail 0: find_matches_to_new_records with its own blocking rule on a column the new record lacks;
+        fm_fail 1: ... with a blocking rule on a column that exists nowhere;
+        c2_fail:   compare_two_records with a record lacking a compared column."""
+        lk = self.linker
+        try:
+            if op[0] == "fm_fail" and op[1] == 0:
+                lk.inference.find_matches_to_new_records([{"unique_id": 950, "first_name": "ann", "city": "l"}],
+                                                         blocking_rules=["l.surname = r.surname"], match_weight_threshold=-1e9)
+            elif op[0] == "fm_fail":
+                lk.inference.find_matches_to_new_records([{"unique_id": 951, "first_name": "ann", "surname": "x", "city": "l"}],
+                                                         blocking_rules=["l.no_such_column = r.no_such_column"],
+                                                         match_weight_threshold=-1e9)
+            else:
+                lk.inference.compare_two_records({"unique_id": 960, "first_name": "ann", "city": "l"},
+                                                 {"unique_id": 961, "first_name": "ann", "surname": "x", "city": "l"})
+        except Exception as e:  # noqa: BLE001
+            return f"{type(e).__name__}: {e}"[:300]
+        return None
+
+    def settings_snapshot(self) -> dict:
+        """What a failing call must leave alone: the saved model and the flags compare_two_records forces for its duration."""
+        so = self.linker._settings_obj
+        return {"saved_model": self.model_json(),
+                "blocking_rules": [br.blocking_rule_sql for br in so._blocking_rules_to_generate_predictions],
+                "link_type": so._link_type,
+                "retain_matching_columns": so._retain_matching_columns,
+                "retain_intermediate_calculation_columns": so._retain_intermediate_calculation_columns}
+
     # ------------------------------------------------------------------ observation
     def reset_trackers(self):
         self.cache.reset_executed_queries_tracker()
@@ -430,10 +463,11 @@ class World:
     def predict_rows(self):
         return su.records(self.linker.inference.predict())
 
-    def fresh(self) -> "World":
-        """A fresh Linker on a new database with the same input rows, the saved model and the
-        currently registered lookups."""
-        w = World(self.backend, self.version, settings=self.model_json(), table=self.table, offset=self.offset, link=self.link)
+    def fresh(self, settings=None) -> "World":
+        """A fresh Linker on a new database with the same input rows, the saved model (or the given one, saved earlier) and
+        the currently registered lookups."""
+        w = World(self.backend, self.version, settings=settings or self.model_json(), table=self.table, offset=self.offset,
+                  link=self.link)
         for col, ver in self.registered.items():
             w.linker.table_management.register_term_frequency_lookup(pd.DataFrame(lookup_rows(col, ver)), col)
         return w
